@@ -122,6 +122,33 @@ claim("C42", "e7_seedsim",
   "Trusted: the shim (getrandom via dlsym), the program generator (well-typed templates that compile through dfir_lang without rustc). Covers hash-seed and address-layout dependence only; other nondeterminism sources (environment, file system order, time) are out of scope.",
   "DESIGN.md §5 C42, §13")
 
+claim("C01", "e6_gossip",
+  "deterministic discrete-event simulation: 3-5 replicas of one lattice type (23 monomorphic scenarios over the real lattices Merge/LatticeFrom/PartialEq code incl. heterogeneous wire carriers and #[derive(Lattice)]) gossip full states under seeded drop / duplicate / reorder / partition+heal / crash+restart-from-durable-snapshot / slow replica, then a bounded fault-free anti-entropy tail; oracles: all replicas == after the tail, each equals the fold of the updates it causally saw, re-delivery leaves the value ==, two in-flight messages delivered to two clones in both orders give ==",
+  "Operational form of ACI: convergence of replicated state under any delivery schedule, plus idempotence/commutativity/associativity checked at the point of use on seeded deliveries. Seeded exploration; quick 4e5 runs, thorough 2e7.",
+  "Trusted: the replica/network simulator and fold model. Samples values reachable by gossip from generated deltas over small domains, not 'all triples'; the DomPair (totally ordered key) and Point (only equal values merged) side conditions are assumed by the generators; a change that stays a semilattice under the type's own equality is invisible by definition.",
+  "DESIGN.md §5 C01, §13")
+claim("C02", "e6_gossip",
+  "deterministic discrete-event simulation: flag-driven flood on a ring (a replica forwards iff merge returned true) after a faulty phase; per-merge oracle flag == (before != after) against a clone (and false => message <= state where PartialOrd exists); run-level oracles: the flood converges (a missing true suppresses forwarding -> divergence) and quiesces within a sound send budget (a spurious true keeps the cycle forwarding)",
+  "Seeded exploration of delivery schedules with the change flag as the protocol's only forwarding trigger; quick 4e5 runs, thorough 2e7.",
+  "Trusted: simulator, quiescence bound 2*n*deg*(updates+2)+16 sends. Values reachable by gossip over small domains.",
+  "DESIGN.md §5 C02, §13")
+claim("C05", "e6_gossip",
+  "deterministic discrete-event simulation: hash-set, roaring and FST tombstone back ends of SetUnionWithTombstones / MapUnionWithTombstones execute the identical seeded schedule (insert / delete deltas + state-push gossip under drop/dup/reorder/partition/crash-restart) in lock-step next to a per-replica model (inserted_seen, tomb_seen); invariants after every event: live == inserted - tombstoned, live and tombstones disjoint, no resurrection, map values == merged inserted values, back ends observably identical",
+  "Seeded exploration of merge histories in any order for each tombstone back end; quick 8e4 runs, thorough 4e6.",
+  "Trusted: simulator and set model. Keys: u64 above 2^32 with colliding low halves, Strings incl. empty/prefix/non-ASCII. FST stack joins 1 run in 16 (one FST merge costs ~0.4 ms). Only legal delta shapes per the doc comments are generated.",
+  "DESIGN.md §5 C05, §13")
+
+claim("C34", "e5_hydrosim",
+  "deterministic simulation: the documented atomic keyed-counter pattern (atomic write path releasing acks through end_atomic, atomic read path snapshotting the same state) run in the repository simulator under seeded decision bytes with clients that wait for an ack before issuing reads; oracle over the event-stamped history: every read sent after an observed ack reflects the acknowledged update; a non-atomic control variant must show a stale read (reach probe proving the race is in the schedule space)",
+  "Seeded exploration of simulator schedules of atomic write/ack vs atomic read (production-partition leg C34p exists in e4_hydroprod as an unregistered extra scenario group).",
+  E5NOTE + " Reads concurrent with an ack are unconstrained.",
+  "DESIGN.md §5 C34, §13")
+claim("C39", "e5_hydrosim",
+  "deterministic simulation: hydro_std collect_quorum / collect_quorum_with_response / request_response::join_responses run in the repository simulator under seeded decision bytes (batching and response order chosen by the simulator); reference quorum model on the whole response sequence: each key reported exactly once, exactly when >= min successes arrived among its first max responses, every error passed through once, each response joined with its request's metadata exactly once",
+  "Seeded exploration of response orders and batchings respecting the documented contract (at most max responses per key); production-partition leg C39p exists in e4_hydroprod as an unregistered extra scenario group.",
+  E5NOTE + " With min < max the payloads of collect_quorum_with_response are legitimately batching-dependent; only what the property states is compared.",
+  "DESIGN.md §5 C39, §13")
+
 NOT_BUILT = {}  # pid -> reason while its check is not built yet
 
 ALL = ["C%02d" % i for i in range(1, 43)]
@@ -164,6 +191,7 @@ def main():
       "e4_hydroprod": "production-compiled (embedded back end) Hydro flows under simulated tick partitions, location schedules and a simulated network",
       "e5_hydrosim": "the repository's own deterministic simulator driven by my seeded decision stream: hook-level DynDriver and end-to-end fuzz_repro(bytes) over compiled dylibs",
       "e7_seedsim": "process-level simulator of hash-seed / address-space nondeterminism around the DFIR and Hydro compile pipelines (LD_PRELOAD getrandom seam)",
+      "e6_gossip": "discrete-event simulator of replicated lattice state over a faulty network (drop, duplicate, reorder, partition, crash/restart)",
       "e1_sink": "poll-level deterministic simulator for sinktools adaptors and MergeSource",
       "e1_push": "poll-level deterministic simulator for dfir_pipes push combinators",
       "e1_pollsim": "poll-level deterministic simulator: scripted Pending/Ready/wake schedules around real dfir_pipes/sinktools/MergeSource/unsync-mpsc code",
